@@ -45,6 +45,7 @@ type StrV struct {
 	B   []*Term // concrete length, BV8 terms
 	Doc *PtrV   // non-nil: the text is the JSON serialisation of an abstract node (content opaque)
 	Len *Term   // with Doc: symbolic length
+	View *SliceV // non-nil: created by unsafeString over this slice; B is the content at creation (see vpRefreshView)
 }
 type IfaceV struct {
 	T types.Type // nil => nil interface
